@@ -33,7 +33,7 @@ use crate::{
     c_frames::{encode_all, gen_sequence, render_all},
     c_headers::{build, gen_spec, XorHp},
     c_tokens::gen_payload,
-    c_tparams::{encode_items, expected_fields, gen_invalid, gen_valid, items_of, nonminimal_note, strict_validate, INVALID_KINDS},
+    c_tparams::{encode_items, expected_fields, gen_invalid, gen_valid, items_of, nonminimal_only, strict_validate, NONMINIMAL_REJECTED, INVALID_KINDS},
     common::*,
     Cfg,
 };
@@ -210,13 +210,31 @@ pub fn tp_input(acc: &mut Acc, b: &[u8]) {
             }
             (Err(_), Err(_)) => acc.inc("total.tp_rejected_by_both"),
             (Ok(p), Err(why)) => {
-                acc.viol_sub(qv::util::hash64(2, &[why.as_bytes()]), format!("transport parameters: invalid set accepted ({why}): read({reader:?}) of {} returned {:?}", hex(b), tp_fields(&p)));
-                return;
+                // leniency towards malformed sets is outside C10: observed, not judged; the
+                // accepted value must still survive write -> read
+                acc.inc("note.tp.invalid_set_accepted");
+                observe(format!("transport parameters: invalid set accepted ({})", why.split(": ").next().unwrap_or("")), || format!("{why}: read({reader:?}) of {} returned {:?}", hex(b), tp_fields(&p)));
+                let mut enc = Vec::new();
+                if let Err(pn) = guard(|| p.write(&mut enc)) {
+                    return report_panic(acc, "TransportParameters::write", b, &pn);
+                }
+                match guard(|| TransportParameters::read(reader, &mut &enc[..])) {
+                    Ok(Ok(p2)) if p2 == p => {}
+                    Ok(other) => {
+                        acc.viol(format!("transport parameters: accepted input {} re-encodes to {} which reads as {other:?}", hex(b), hex(&enc)));
+                        return;
+                    }
+                    Err(pn) => return report_panic(acc, "TransportParameters::read", &enc, &pn),
+                }
             }
             (Err(e), Ok(tp)) => {
-                let why = nonminimal_note(b, reader);
-                acc.viol(format!("transport parameters: valid set {tp:?} encoded as {} rejected by read({reader:?}): {e}{why}", hex(b)));
-                return;
+                if nonminimal_only(b, reader) {
+                    acc.inc("note.tp.valid_nonminimal_varint_rejected");
+                    observe(NONMINIMAL_REJECTED.to_string(), || format!("read({reader:?}) of {}: {e}", hex(b)));
+                } else {
+                    acc.viol(format!("transport parameters: valid set {tp:?} encoded as {} rejected by read({reader:?}): {e}", hex(b)));
+                    return;
+                }
             }
         }
     }
